@@ -33,7 +33,17 @@ def run(ctx):
     recs = ofcorpus.run_families(ctx, "C05", fams, sub=SUB, judge=JUDGE, transform=transform, constants="")
     viol, known = pipeline.settle(ctx, SUB, JUDGE, "", recs, sig=lambda r: "%s|%s|%s" % (r.get("pred", "?"), (r.get("detail") or {}).get("type"), (r.get("detail") or {}).get("where")),
                                   max_report=12)
-    return vlib.finish(ctx, "model_checking", "tbd", viol, known, [], exhaustive=False)
+    return vlib.finish(
+        ctx, "model_checking",
+        "Four-phase machine built -> encoded -> decoded (with a sibling following) -> re-encoded executed on the real types for every "
+        "watched child (through DecodeAction / DecodeInstr / the kind's own UnmarshalBinary) and every top-level message (through Parse) "
+        "of the construction corpus: " + ofcorpus.corpus_text(ctx) + " TLC judges (OFCodecTrace.tla): decoder accepts, same kind, "
+        "projection of the decoded value = projection of the built value, re-encoding = original bytes, the decoded projection read by "
+        "the specification's own encoder Enc() = original bytes, decoded size = own bytes.",
+        viol, known,
+        ["note actions carry no length of their own: only notes of length 6 mod 8 are in the round-trip domain",
+         "NXM_OF_ARP_SPA/TPA and ACTSET_OUTPUT match fields have no decoder and are excluded (not two-way kinds)",
+         "switch-originated kinds (stats records, packet-in, features reply, port status) are covered by the C04 corpus"], exhaustive=False)
 
 
 def replay(ctx, obj):
